@@ -2636,14 +2636,16 @@ public:
     //! implemented using erase_one().
     size_type erase(const key_type& key)
     {
+        if (!allow_duplicates)
+            return erase_one(key) ? 1 : 0;
+
+        // key may refer to an element of this tree (s.erase(*it)), whose slot
+        // the first erase_one() reuses or frees: continue with a copy.
+        const key_type key_copy(key);
         size_type c = 0;
 
-        while (erase_one(key))
-        {
+        while (erase_one(key_copy))
             ++c;
-            if (!allow_duplicates)
-                break;
-        }
 
         return c;
     }
